@@ -232,6 +232,17 @@ theorem C05_model_dynamics_partial {b : Base} {lv : List (Name × Nat)}
   have hfa := mapM_ok_forall₂ _ _ _ hg
   exact forall₂_map_sum _ _ hfa (fun r grp hmem hgr => group_dynamics hgr (hr r hmem) σ hσ x)
 
+/-- the environment the driver evaluates the labelled model in (`LModel.env`: state variables,
+    parameters, totals, derived) satisfies the hypothesis of `C05_model_dynamics_partial`: it reads
+    `X__total` as the sum of the isotopomers of `X` -/
+theorem C05_env_totals (m : LModel) (st : List (LName × Rat)) (k : Name) (n : Nat)
+    (hst : ∀ iso ∈ binaryLabels k n, (st.lookup iso).isSome)
+    (hnot : st.lookup (plain (k ++ "__total")) = none)
+    (hp : m.pars.lookup (k ++ "__total") = none)
+    (ht : m.totals.lookup (plain (k ++ "__total")) = some (binaryLabels k n)) :
+    m.env st (plain (k ++ "__total")) = totalOf (m.env st) k n :=
+  env_totals m st k n hst hnot hp ht
+
 /-- the full statement (without `DistinctOccurrences`) is false of the code as it stands
     (finding F-C05-1): 2 A → B with rate `k·A·A`, A carrying one label; at A⁰ = 1, A¹ = 3, k = 1
     the four isotopomer rates sum to 20, the base rate at the total 4 is 16 -/
